@@ -194,6 +194,11 @@ class E3Session(SessionBase):
             events, fired = TAP.events, TAP.fired
             TAP.reset()
         self.st.element_events += events
+        snap = getattr(self, 'snap_amp', {})
+        for pth in list(ppths) + list(rppths):
+            if any(isinstance(el, Edfa) and el.uid in snap and snap[el.uid]['effective_gain'] is not None
+                   and el.effective_gain < snap[el.uid]['effective_gain'] - 1e-9 for el in pth):
+                self.st.probes['request_clamped_an_amplifier'] += 1
         items = []
         for rq, pth, rpth, res in zip(rqs, ppths, rppths, result):
             it = {'rid': rq.request_id, 'ids': rq.request_id.split(' | '), 'bidir': rq.bidir,
@@ -549,6 +554,19 @@ class E3Session(SessionBase):
             seen.extend(str(resp['response-id']).split(' | '))
             if len(it['ids']) > 1:
                 self.st.probes['aggregated_request'] += 1
+                docs_ = []
+                for i in it['ids']:
+                    # compare what the requests *mean* (defaults resolved by the real loader), not their spelling
+                    r_ = requests_from_json({'path-request': [deepcopy(reqdocs[i])]}, self.equipment)[0]
+                    d = {k: canon(v) for k, v in vars(r_).items() if k not in ('request_id', 'path_bandwidth', 'N', 'M')}
+                    docs_.append(d)
+                if any(d != docs_[0] for d in docs_[1:]):
+                    diff = _first_diff(docs_[0], next(d for d in docs_[1:] if d != docs_[0]))
+                    sig = 'non-identical-requests-aggregated'
+                    if '/bidir' in diff:
+                        sig += ':bidirectional-flag-differs'
+                    if not self.known.is_open('C19', sig):
+                        raise Violation('C19', sig, f'{who}: members differ in {diff}', signature=sig)
                 want = sum(reqdocs[i]['path-constraints']['te-bandwidth']['path_bandwidth'] for i in it['ids'])
             else:
                 want = reqdocs[it['ids'][0]]['path-constraints']['te-bandwidth']['path_bandwidth']
@@ -810,16 +828,42 @@ def request_strategy(draw, world, rid, swarm):
     r = {'request-id': str(rid), 'source': f'trx {a}', 'destination': f'trx {b}', 'src-tp-id': f'trx {a}',
          'dst-tp-id': f'trx {b}', 'bidirectional': swarm['bidir'] and draw(st.booleans()),
          'path-constraints': {'te-bandwidth': tb}}
-    if swarm['include'] and draw(st.integers(0, 3)) == 0:
-        via = draw(st.sampled_from(sites))
-        hop = draw(st.sampled_from(['LOOSE', 'LOOSE', 'STRICT']))
-        node = f'roadm {via}'
-        if raising and draw(st.integers(0, 2)) == 0:
-            node = 'roadm nowhere'
-        r['explicit-route-objects'] = {'route-object-include-exclude': [
-            {'explicit-route-usage': 'route-include-ero', 'index': 0,
-             'num-unnum-hop': {'node-id': node, 'link-tp-id': 'link-tp-id is not used', 'hop-type': hop}}]}
+    if swarm['include'] and draw(st.integers(0, 2)) == 0:
+        hops = []
+        for k in range(draw(st.integers(1, 2))):
+            # the far end first makes many two-node lists unsatisfiable (LOOSE falls back, STRICT blocks)
+            via = draw(st.sampled_from([b, a] + sites))
+            hop = draw(st.sampled_from(['LOOSE', 'LOOSE', 'STRICT']))
+            node = f'roadm {via}'
+            if raising and draw(st.integers(0, 2)) == 0:
+                node = 'roadm nowhere'
+            hops.append({'explicit-route-usage': 'route-include-ero', 'index': k,
+                         'num-unnum-hop': {'node-id': node, 'link-tp-id': 'link-tp-id is not used', 'hop-type': hop}})
+        r['explicit-route-objects'] = {'route-object-include-exclude': hops}
     return r
+
+
+def near_duplicate(draw, req, rid):
+    """a copy of an earlier request: identical (aggregates) or differing in exactly one attribute that must keep the
+    two requests apart (hop type of the include list, direction flag, spacing, ...)"""
+    dup = deepcopy(req)
+    dup['request-id'] = str(rid)
+    tb = dup['path-constraints']['te-bandwidth']
+    tb['path_bandwidth'] = draw(st.sampled_from([100e9, 200e9]))
+    hops = dup.get('explicit-route-objects', {}).get('route-object-include-exclude', [])
+    what = draw(st.integers(0, 5))
+    if hops and draw(st.booleans()):
+        what = 0
+    if what == 0 and hops:
+        for h in hops:
+            h['num-unnum-hop']['hop-type'] = 'STRICT' if h['num-unnum-hop']['hop-type'] == 'LOOSE' else 'LOOSE'
+    elif what == 1:
+        dup['bidirectional'] = not dup['bidirectional']
+    elif what == 2:
+        tb['output-power'] = draw(st.sampled_from([1e-3, 2e-3, None]))
+    elif what == 3 and tb.get('trx_mode') is None:
+        tb['spacing'] = draw(st.sampled_from(SPACINGS))
+    return dup
 
 
 @st.composite
@@ -827,11 +871,8 @@ def batch_strategy(draw, world, swarm, first_id=0, max_requests=6):
     n = draw(st.integers(1, max_requests))
     reqs = []
     for i in range(n):
-        if reqs and swarm['aggregate'] and draw(st.integers(0, 4)) == 0:
-            dup = deepcopy(draw(st.sampled_from(reqs)))
-            dup['request-id'] = str(first_id + i)
-            dup['path-constraints']['te-bandwidth']['path_bandwidth'] = draw(st.sampled_from([100e9, 200e9]))
-            reqs.append(dup)
+        if reqs and swarm['aggregate'] and draw(st.integers(0, 3)) == 0:
+            reqs.append(near_duplicate(draw, draw(st.sampled_from(reqs)), first_id + i))
         else:
             reqs.append(draw(request_strategy(world, first_id + i, swarm)))
     data = {'path-request': reqs}
@@ -856,6 +897,13 @@ def make_machine(prop, tier, cfg):
     props = {prop}
     max_requests = {'C16': 6, 'C13': 3, 'C19': 6}[prop]
 
+    @st.composite
+    def any_world(draw):
+        k = draw(st.integers(0, 7))
+        if k == 0:
+            return draw(worlds.multiband_world_strategy())
+        return draw(worlds.world_strategy('small' if prop == 'C13' else 'mesh'))
+
     class E3Machine(RuleBasedStateMachine):
         def __init__(self):
             super().__init__()
@@ -863,7 +911,7 @@ def make_machine(prop, tier, cfg):
             self.batches = []
             self.next_id = 0
 
-        @initialize(world=worlds.world_strategy('small' if prop == 'C13' else 'mesh'), swarm=st.fixed_dictionaries({
+        @initialize(world=any_world(), swarm=st.fixed_dictionaries({
             'raising': st.booleans(), 'saturating': st.booleans(), 'bidir': st.booleans(), 'include': st.booleans(),
             'aggregate': st.booleans(), 'disjunction': st.booleans(), 'inject': st.booleans(),
             'fixed_slots': st.booleans(), 'sim': st.booleans()}))
